@@ -304,3 +304,30 @@ def reachable_fns(crate, entries, graph=None, trait_impls=True):
             if q.startswith(p + "::{closure"):
                 stack.append(q)
     return seen
+
+
+def establishing_calls(crate, body, target, depth=2, _seen=None):
+    """Blocks of `body` whose call is `target` itself or a same-file helper every successful return of which has
+    passed through (a call establishing) `target` — i.e. the call sites after whose success `target` has succeeded.
+    Helper extraction keeps this set non-empty; deleting the call inside the helper empties it."""
+    from . import mir as M
+    _seen = _seen or set()
+    out = []
+    for bi, t, tgt in body.calls():
+        c = H.strip_generics(tgt or "")
+        if c == target:
+            out.append(bi)
+            continue
+        if depth <= 0 or c in _seen or c not in crate.mir:
+            continue
+        j = crate.mir[c]
+        if j.get("file") != body.file:
+            continue
+        hb = M.Body(j)
+        inner = establishing_calls(crate, hb, target, depth - 1, _seen | {c})
+        if not inner:
+            continue
+        ok, _ = must_pass(hb, inner, avoid=error_blocks(hb) | cleanup_blocks(hb) | diverging_blocks(hb))
+        if ok:
+            out.append(bi)
+    return out
